@@ -144,3 +144,69 @@ func Scaled(r *core.Rand, fam, maxN, maxDeep, maxBytes int) (src []byte, shape s
 	}
 	return []byte(sh.Make(n, nl)), sh.Name, n
 }
+
+// LineSweep builds a valid program out of segments that each hold a PRNG number (0..40) of line
+// terminators inside ONE token or between two tokens, many of them starting in column 0: runs of blank
+// lines, block and doc comments, single- and double-quoted strings, heredoc and nowdoc bodies, inline HTML
+// after a close tag, line comments. Every (lines inside a token, lines scanned after it) combination below
+// 40 x 40 turns up quickly; line numbers of tokens and nodes are what C04 and C05 compare.
+func LineSweep(r *core.Rand) []byte {
+	nl := r.Pick("\n", "\n", "\r\n")
+	if r.Chance(1, 6) {
+		nl = "" // mixed: chosen per use below
+	}
+	eol := func() string {
+		if nl != "" {
+			return nl
+		}
+		return r.Pick("\n", "\r\n")
+	}
+	lines := func(text string, k int) string {
+		var sb strings.Builder
+		for i := 0; i < k; i++ {
+			sb.WriteString(text)
+			sb.WriteString(eol())
+		}
+		return sb.String()
+	}
+	var sb strings.Builder
+	sb.WriteString("<?php" + eol())
+	label := 0
+	for i, n := 0, r.Range(2, 12); i < n; i++ {
+		k := r.Intn(41)
+		switch r.Intn(12) {
+		case 0:
+			sb.WriteString("$a = 1;" + lines("", k))
+		case 1:
+			sb.WriteString("/*" + lines(" c", k) + "*/" + eol())
+		case 2:
+			sb.WriteString("/**" + lines(" * d", k) + " */" + eol() + "function f" + strconv.Itoa(i) + "() {}" + eol())
+		case 3:
+			sb.WriteString("'" + lines("s", k) + "';" + eol())
+		case 4:
+			sb.WriteString("\"" + lines("t $v", k) + "\";" + eol())
+		case 5:
+			label++
+			l := "L" + strconv.Itoa(label)
+			sb.WriteString("$h = <<<" + l + eol() + lines("body $v", k) + l + ";" + eol())
+		case 6:
+			label++
+			l := "N" + strconv.Itoa(label)
+			sb.WriteString("$n = <<<'" + l + "'" + eol() + lines("raw", k) + l + ";" + eol())
+		case 7:
+			sb.WriteString("?>" + eol() + lines("<p>html</p>", k) + "<?php" + eol())
+		case 8:
+			sb.WriteString(lines("// line comment", k))
+		case 9:
+			sb.WriteString("`" + lines("cmd $v", k) + "`;" + eol())
+		case 10:
+			sb.WriteString("f(" + lines("$x,", k) + "$y);" + eol())
+		default:
+			sb.WriteString("$b = [" + eol() + lines("  1,", k) + "];" + eol())
+		}
+	}
+	if r.Bool() {
+		sb.WriteString("?>" + eol() + lines("tail", r.Intn(20)))
+	}
+	return []byte(sb.String())
+}
